@@ -82,6 +82,8 @@ def _split(specs, b, per, **kw):
 def members_of_shard(b, k, n):
     structs = U.enumerate_members(flags="none", **b)
     for st in U.shard(structs, k, n):
+        if b.get("times") == "weak" and st.ranks == tuple(range(st.N)):
+            continue  # identity order is enumerated by the times="id" group: keep cases distinct
         for fl in itertools.product((0, 1), repeat=st.N):
             yield U.Member(st.N, st.G, st.ranks, st.parents, fl, st.grid, st.squash, st.timescale)
 
